@@ -1,3 +1,4 @@
+import Bd.Valid
 import Ln.Basic
 import Bd.Canon
 
@@ -33,6 +34,21 @@ theorem translate_ok_of_canon :
     ∀ (p : Option EK) (pos : Nat) (pending : EK × Nat) (acc : List Upd),
     canon p s = true → Rep p pending → ∃ us, translate s pos pending acc = .ok us :=
   @Bd.translate_ok_of_canon
+end
+
+section
+open Bd
+
+/-- the validator every produced diff goes through: acceptance means positive runs in canonical shape, exactly the old and
+the new line count accounted for, the new version rebuilt from the old one (equal runs are the same lines), and
+acceptance by the burndown edit loop -/
+theorem validScript_sound :
+    ∀ {α : Type} [DecidableEq α] (s : List (EK × Nat)) (old new : List α) (h : validScript s old new = true),
+    (∀ e ∈ s, e.2 > 0) ∧ canon none s = true ∧
+    oldLines s = old.length ∧ newLines s = new.length ∧
+    rebuild s old (inserted s new) = new ∧
+    ∃ us, translate s 0 (.eq, 0) [] = .ok us :=
+  @Bd.validScript_sound
 end
 
 end Props.C11
